@@ -233,12 +233,27 @@ def polygons(n, stride, offset):
     return out
 
 
+def chamfer(poly, c=0.002):
+    """every corner cut by c metres (a corner digitised twice): the outline gains edges shorter than the on-edge tolerance"""
+    out = []
+    n = len(poly)
+    for i in range(n):
+        p, a, b = poly[i], poly[i - 1], poly[(i + 1) % n]
+        for q in (a, b):
+            dx, dy = q[0] - p[0], q[1] - p[1]
+            ln = (dx * dx + dy * dy) ** 0.5
+            out.append([p[0] + c * dx / ln, p[1] + c * dy / ln])
+    return out
+
+
 def run_case(case):
     res = core.Result(evals=0)
     if "props" in case:
         check_one(case, res)
         return res
     polys = polygons(case["n"], case["stride"], case["offset"])[case["lo"]:case["hi"]]
+    if case.get("chamfer"):
+        polys = [chamfer(p) for p in polys]
     for poly in polys:
         for sp in case["spacings"]:
             for ng in case["nogo_sets"]:
@@ -271,6 +286,9 @@ def main(run: core.Run, only=None):
             cases.append({"n": n, "stride": stride, "offset": offset, "lo": lo, "hi": min(total, lo + step), "spacings": sps, "nogo_sets": ngs, "seconds": seconds,
                           "cw_too": (lo // step) % 2 == 0})
     run.drive(cases, family="lattice-outlines")
+    # the same outlines with every corner digitised twice (2 mm apart): edges shorter than the on-edge tolerance
+    dig = [dict(c, chamfer=True, cw_too=False) for c in cases[:: (3 if quick else 2)]]
+    run.drive(dig, family="corners-digitised-twice")
     return run.finish(
         rule="property outlines = simple lattice polygons (canonical start, both orientations; thinned by a stated stride per vertex "
              "count) x spacing triples x no-go sets x optional second outline; one evaluation = one polygonal_land_constraint call whose "
